@@ -86,19 +86,19 @@ def wordBytes (code : List UInt8) (n : Nat) : List UInt8 :=
   [code.getD n 0, code.getD (n + 1) 0, code.getD (n + 2) 0, code.getD (n + 3) 0]
 
 def opcodeOf (big : Bool) (w : List UInt8) : BitVec 32 :=
-  let b (i : Nat) : BitVec 32 := BitVec.ofNat 32 (w.getD i 0).toNat
+  let b (i : Nat) : BitVec 32 := (w.getD i 0).toBitVec.setWidth 32
   if big then b 3 ||| (b 2 <<< 8) ||| (b 1 <<< 16) ||| (b 0 <<< 24)
   else b 0 ||| (b 1 <<< 8) ||| (b 2 <<< 16) ||| (b 3 <<< 24)
 
 /-- the four `memory_write_inc` calls of `add_bin32` -/
 def bytesOf (big : Bool) (op : BitVec 32) : List UInt8 :=
-  let b (k : Nat) : UInt8 := UInt8.ofNat ((op >>> k) &&& 0xff).toNat
+  let b (k : Nat) : UInt8 := UInt8.ofBitVec (((op >>> k) &&& 0xff).setWidth 8)
   if big then [b 24, b 16, b 8, b 0] else [b 0, b 8, b 16, b 24]
 
 def isJal (op : BitVec 32) : Bool := (op &&& 0xfc000000) == 0x0c000000
 
 /-- `opcode = opcode & 0xfc000000; opcode |= (address >> 2) & 0x03ffffff;` -/
-def patch (op : BitVec 32) (address : Addr) : BitVec 32 :=
+def patch (op : BitVec 32) (address : BitVec 32) : BitVec 32 :=
   (op &&& 0xfc000000) ||| ((address >>> 2) &&& 0x03ffffff)
 
 /-- pass 1: the loop over the words; `k` words left, `n` = byte offset.  Returns the needed-symbol list.
